@@ -480,11 +480,13 @@ Definition op_merge (s : regs) (r w : Z) : regs * outline :=                  (*
   | _, _ => (s, (refused, []))
   end.
 
-Definition op_freq (s : regs) (r et : Z) (x : line) : regs * outline :=       (* 6 r et has_thr thr *)
+(* 6 r et has thr: has = 0 the one-argument overload (threshold = maximum error); has = 2 explicit threshold
+   max 0 (maximum error + thr) (thresholds around the maximum error); otherwise explicit threshold thr *)
+Definition op_freq (s : regs) (r et : Z) (x : line) : regs * outline :=
   match reg_get s r, x with
   | Some f, has :: thr :: _ =>
       let k := f_sk f in
-      let t := if has =? 0 then sk_off _ k else thr in
+      let t := if has =? 0 then sk_off _ k else if has =? 2 then Z.max 0 (sk_off _ k + thr) else thr in
       let rows := rows_by_est (sk_rows item (et =? 1) k t) in
       (s, (nz (length rows) :: sk_off _ k ::
              flat_map (fun c => enc_item (ck _ c) ++ [cv _ c + sk_off _ k; cv _ c; cv _ c + sk_off _ k]) rows,
